@@ -625,7 +625,9 @@ Emit == Terminal => PrintT("REPLAY " \o ToJson(Hist))
          the last character / a span near usize::MAX
      lb  entry labels: address 0 / one past the end / usize::MAX / missing
      df  definitions: as in the world / every name twice / none at all / field types naming
-         undefined structs and enums / `never`-typed fields / an enum with duplicate variants
+         undefined structs and enums / `never`-typed fields / an enum with duplicate variants /
+         a struct that contains itself, directly or through an option (the compiler rejects
+         cyclic definitions, a hand-built module can carry one)
      en  entry: raw run / call_action (good and bad arguments) / call_command_policy /
          call_seal / call_open
 
@@ -636,7 +638,7 @@ Emit == Terminal => PrintT("REPLAY " \o ToJson(Hist))
    consulted to decorate errors.  SpecMod enumerates the cells; `vh-vmtable module` executes them. *)
 ModCodemaps == {"none", "ok", "empty-at-end", "whole", "oob", "nonboundary", "last-char", "huge"}
 ModLabels   == {"zero", "end", "max", "missing"}
-ModDefs     == {"ok", "dup", "none", "dangling", "never", "enumdup"}
+ModDefs     == {"ok", "dup", "none", "dangling", "never", "enumdup", "recursive", "recursive-opt"}
 ModEntries  == {"raw", "action", "action-badargs", "policy", "seal", "open"}
 (* full products code map x entry (default labels/defs) and labels x defs x entry (two code maps) *)
 ModCells == {c \in [cm : ModCodemaps, lb : ModLabels, df : ModDefs, en : ModEntries] :
